@@ -285,6 +285,8 @@ func rulesC04(e *Engine, r *Report) {
 		})
 		r.Min("R04.11", "predecessors cleared by the cleaner", n, 1)
 	}
+	// ---------------------------------------------------------------- R04.12
+	e.shareRule(r, "C05", "R05.6", "R04.12", "a held file stays held: a record of the log replaces only cache entries that themselves came from the log - a validated file waiting for its predecessor must not turn into `logged`, which its successors take for delivered")
 }
 
 // allocsOf returns the composite-literal allocations of type *T in fn.
